@@ -16,6 +16,7 @@ c01Profiles == {
   P(FALSE, FALSE, FALSE, {}, <<[op |-> "clearall"]>>),
   P(TRUE,  FALSE, FALSE, {}, <<[op |-> "pub", t |-> "T1", val |-> "a", ctx |-> "bg"]>>),
   P(FALSE, FALSE, FALSE, {}, <<[op |-> "sub", t |-> "T1", fn |-> "f1", pr |-> Plain]>>),
-  P(FALSE, TRUE,  FALSE, {}, <<[op |-> "count", t |-> "T1"]>>) }
+  P(FALSE, TRUE,  FALSE, {}, <<[op |-> "count", t |-> "T1"]>>),
+  P(TRUE,  FALSE, FALSE, {}, <<[op |-> "sub", t |-> "T1", fn |-> "f0", pr |-> Plain]>>) }
 c01Cfgs == {[obs |-> FALSE, before |-> FALSE, beforeCtx |-> FALSE, after |-> FALSE, afterCtx |-> FALSE, panicH |-> FALSE, closer |-> FALSE]}
 =============================================================================
